@@ -311,6 +311,10 @@ func clientBytes(c *core.Ctx, ch *child, origin *ep.Origin, mode string) {
 		raw := render(toks, origin.Addr())
 		conn, err := net.DialTimeout("tcp", ch.addr, 2*time.Second)
 		if err != nil {
+			// a proxy that has just crashed may not have been reaped yet
+			for w := 0; w < 100 && ch.alive(); w++ {
+				time.Sleep(10 * time.Millisecond)
+			}
 			if !ch.alive() {
 				c.Violation("bytes: proxy process died", fmt.Sprintf("before stream %d; stderr: %s", i, clip(ch.errb.String(), 1500)), nil)
 				return
